@@ -46,6 +46,7 @@ func checkC02(c *Ctx, r *Report) {
 	checkDMC40EOD(c, r)
 	checkDMCharset(c, r)
 	checkDMNativeChars(c, r)
+	checkDMLookup(c, r) // the size hints: a text that fits a permitted symbol is not refused (same obligations as under C13)
 	// the statement quantifies over the requested pixel size: the rendering terms (same obligations as under C14)
 	declareRenderRules(r, 1)
 	renderDM(c, r)
